@@ -50,11 +50,14 @@ class FuncTaint:
         self.env: Dict[str, int] = {}
         self.leaks: List[Tuple[ast.AST, str]] = []   # U created inside the function (node, description)
         self.stores: List[Tuple[ast.AST, str]] = []  # U stored into an object
+        # keyed selections made while iterating in set order: (node, key expression, "first wins"/"last wins")
+        self.selections: List[Tuple[ast.AST, ast.AST, str]] = []
 
 
 class TaintAnalysis:
     def __init__(self, pm: PyModel, modules_prefix=("gapic.",)):
         self.pm = pm
+        self._cur_ft = None
         self.funcs: Dict[str, FuncTaint] = {}
         for q, fi in pm.functions.items():
             if q.startswith(modules_prefix):
@@ -91,6 +94,8 @@ class TaintAnalysis:
         fn = ft.fi.node
         ft.leaks = []
         ft.stores = []
+        ft.selections = []
+        self._cur_ft = ft
         env: Dict[str, int] = {}
         # parameters annotated as sets
         for a in fn.args.args + fn.args.kwonlyargs:
@@ -212,6 +217,8 @@ class TaintAnalysis:
             base = tg.value
             if isinstance(base, ast.Name):
                 cur = env.get(base.id, CLEAN)
+                if loop_taint >= SET and self._cur_ft is not None:
+                    self._cur_ft.selections.append((tg, tg.slice, "last wins"))
                 if loop_taint >= SET and cur != SET:
                     env[base.id] = U
                 else:
@@ -232,6 +239,8 @@ class TaintAnalysis:
                     env[name] = U
                     ft.leaks.append((e, f"{name}.{meth}(...) inside iteration over a set"))
             elif meth in ("extend", "update", "setdefault"):
+                if meth == "setdefault" and loop_taint >= SET and len(e.args) == 2 and not isinstance(e.args[1], (ast.List, ast.Dict, ast.Set, ast.Call)):
+                    ft.selections.append((e, e.args[0], "first wins"))
                 if cur == SET:
                     return
                 if argt >= SET or loop_taint >= SET:
@@ -271,6 +280,8 @@ class TaintAnalysis:
                 it = self.expr(g.iter, local, ft)
                 if it >= SET:
                     t = U
+                    if isinstance(e, ast.DictComp) and not any(s[0] is e for s in ft.selections):
+                        ft.selections.append((e, e.key, "last wins"))
                 self._assign(g.target, CLEAN, local, CLEAN)
             return t
         if isinstance(e, ast.BinOp):
